@@ -354,6 +354,8 @@ def tensor_expr(e, names):
     if isinstance(e, ast.Call) and isinstance(e.func, ast.Attribute) and not e.keywords:
         if e.func.attr == "conj" and not e.args:
             return "(tconj %s)" % tensor_expr(e.func.value, names)
+        if e.func.attr == "copy" and not e.args:       # a copy has the same value (values are immutable in the model)
+            return tensor_expr(e.func.value, names)
         if e.func.attr == "transpose" and e.args:
             return "(ttranspose %s %s)" % (perm(e.args), tensor_expr(e.func.value, names))
     if isinstance(e, ast.BinOp) and isinstance(e.op, ast.Mult) and isinstance(e.left, ast.Constant) \
